@@ -89,6 +89,11 @@ def jobs(tier):
     js.append(A('agg_add', 'add', 'c_add', [r'tlx::Aggregate<double>::add\('], stubs=False, what='Aggregate::add: count, min, max exact; first value sets mean exactly'))
     js.append(A('agg_pure_cm', 'pure', 'c_pure', [CM], extra=['PUREFN=CMFN'], stubs=False, what='combine_means writes nothing'))
     js.append(A('agg_pure_cv', 'pure', 'c_pure', [CV], extra=['PUREFN=CVFN'], stubs=False, what='combine_variance writes nothing'))
+    for left in (0, 1):
+        js.append(A('agg_cm_empty_%s' % ('left' if left else 'right'), 'helper_empty', 'c_helper_empty', [CM], extra=['PUREFN=CMFN', 'WHICH_CV=0', 'EMPTY_LEFT=%d' % left], stubs=False,
+                    what='combine_means with an empty %s operand returns the other mean exactly (real body)' % ('left' if left else 'right')))
+        js.append(A('agg_cv_empty_%s' % ('left' if left else 'right'), 'helper_empty', 'c_helper_empty', [CV], extra=['PUREFN=CVFN', 'WHICH_CV=1', 'EMPTY_LEFT=%d' % left], stubs=False,
+                    what='combine_variance with an empty %s operand returns the other variance sum exactly (real floating-point body)' % ('left' if left else 'right')))
     js.append(A('agg_plus', 'plus', 'c_plus', [r'tlx::Aggregate<double>::operator\+\('],
                 what='operator+: count/min/max exact; mean and variance sum are the helpers applied to (a, b) [helpers abstracted as uninterpreted functions]'))
     js.append(A('agg_pluseq', 'pluseq', 'c_pluseq', [r'tlx::Aggregate<double>::operator\+=\('], what='a += b leaves exactly the five fields that a + b returns [helpers abstracted as uninterpreted functions]', witness_defines=['WITNESS_GENERIC']))
